@@ -90,7 +90,7 @@ CHECKS.update({
                      "TxManager) are validated against the same spec.",
                 technique="TLA+ model checking (TLC) + behaviour replay + linearization of concurrent traces by TLC",
                 note="Trusted: TLC. One Tick = VerifAgeRequests(request timeout); real time between calls is microseconds "
-                     "against a one hour timeout. TxManager.Clean is outside the property."),
+                     "against a one hour timeout. TxManager.Clean is modelled as CleanAll (everything forgotten; exactly once per retention period)."),
     "C13": dict(level="model_checking", engine="session", ref="3 C13",
                 text="NoSinkBeforeReady, ReadyNeedsHandshakeAndBSV, VerifyOnlyDisconnects checked by TLC on PeerSession.tla "
                      "(read loop + asynchronous handshake goroutine); sessions enumerated by TLC (all classes, BFS and "
